@@ -27,6 +27,10 @@ type scanTrace struct {
 	paths   int
 }
 
+// c12ParamVals: rune parameters of a helper being simulated on behalf of a scanner function.
+var c12ParamVals = map[*ssa.Parameter]int64{}
+var c12DepthHelpers int
+
 func simulateReader(fn *ssa.Function, word string, boolFields map[string]bool, loopBound int) scanTrace {
 	tr := scanTrace{}
 	isRead := func(v ssa.Value) bool {
@@ -41,6 +45,12 @@ func simulateReader(fn *ssa.Function, word string, boolFields map[string]bool, l
 		}
 		if k, ok := core.ConstInt(v); ok {
 			return k, true
+		}
+		// a parameter of a helper simulated on behalf of the scanner function: the value it was called with
+		if prm, ok := v.(*ssa.Parameter); ok {
+			if k, ok := c12ParamVals[prm]; ok {
+				return k, true
+			}
 		}
 		// integer values computed along the path (recorded by OnInstr in execution order)
 		if in, ok := v.(ssa.Instruction); ok {
@@ -221,6 +231,54 @@ func simulateReader(fn *ssa.Function, word string, boolFields map[string]bool, l
 			case "isNameChar":
 				if k, ok := runeVal(s, call.Call.Args[0], 0); ok {
 					return []core.CallOutcome{{Result: boolAB(k == 'n')}}
+				}
+			default:
+				// a helper of the scanner that only pushes back / writes runes it is given (e.g. `unreadAt(peek)`):
+				// simulated with its rune parameters bound, its effects appended in order
+				if f != nil && f != fn && f.Blocks != nil && core.FuncPkgPath(f) == core.FuncPkgPath(fn) && f.Signature.Recv() != nil && c12DepthHelpers < 2 {
+					saved := map[*ssa.Parameter]int64{}
+					var bound []*ssa.Parameter
+					allKnown := true
+					for i, fp := range f.Params {
+						if i == 0 || i >= len(call.Call.Args) {
+							continue
+						}
+						if b, ok := fp.Type().Underlying().(*types.Basic); !ok || b.Info()&types.IsInteger == 0 {
+							continue
+						}
+						k, ok := runeVal(s, call.Call.Args[i], 0)
+						if !ok {
+							allKnown = false
+							break
+						}
+						if old, had := c12ParamVals[fp]; had {
+							saved[fp] = old
+						}
+						c12ParamVals[fp] = k
+						bound = append(bound, fp)
+					}
+					var outs []core.CallOutcome
+					if allKnown {
+						c12DepthHelpers++
+						sub := simulateReader(f, "", boolFields, loopBound)
+						c12DepthHelpers--
+						if sub.paths == 1 && sub.reads == 0 {
+							var effs []core.Effect
+							for _, e := range sub.effects {
+								effs = append(effs, core.Effect{Kind: "OUT", Data: e})
+							}
+							outs = []core.CallOutcome{{Effects: effs}}
+						}
+					}
+					for _, fp := range bound {
+						delete(c12ParamVals, fp)
+					}
+					for fp, v := range saved {
+						c12ParamVals[fp] = v
+					}
+					if outs != nil {
+						return outs
+					}
 				}
 			}
 			return nil
